@@ -70,7 +70,26 @@ EXPECT = [
     ("anon_chain_kwonly_closure", "w := {|x| {|k: 1| .v + k}(k: 10)}\nw({v: 20}).p\n", "30\n"),
     ("anon_chain_two_levels", "z := {|x| {|| {|| .v}()}()}\nz({v: 7}).p\n", "7\n"),
     ("anon_chain_own_argument", "{|x| {|y| .v}({v: 1})}({v: 2}).p\n", "1\n"),
+    # keyword parameters and keywords whose names are private (leading underscore) bind like any other
+    ("private_keyword_names", "_scale := 1000\nf := {|x, _scale: 10, unit: \"cm\"| [x * _scale, unit]}\n[f(2), f(2, _scale: 3), f(2, unit: \"mm\", _scale: 3)].p\n"
+     "g := {|| [\\level, \\_verbose, \\_]}\ng(level: 1, _verbose: true).p\no := {m: m{|a, _k: 5| [a, _k]}}\n[o.m(1), o.m(1, _k: 2)].p\n",
+     '[[20, "cm"], [6, "cm"], [6, "mm"]]\n[1, true, {"_verbose": true, "level": 1}]\n[[1, 5], [1, 2]]\n'),
+    # a function literal keeps the `self` of the place where it was written, also when it is installed as a property of another object
+    ("free_self_is_lexical", "counter := {name: \"counter\", reporter: m{ {|who| \"#{self.name} reports to #{who.name}\"} }}\n"
+     "boss := {name: \"boss\", report: counter.reporter}\nboss.report.p\nboss['report](boss).p\nself := \"outer self\"\n"
+     "holder := {name: \"holder\", show: {|x| self}}\nholder.show.p\nholder2 := {name: \"h2\", show: m{self.name}}\nholder2.show.p\n",
+     "counter reports to boss\ncounter reports to boss\nouter self\nh2\n"),
+    ("list_chain_builtin_three_args", '[(0:1), (0:2)]@new(10, 20, 5)@S.p\n[[1, 2], [3, 4]]@join("-").p\n["a", "b", "c"]@*(3).p\n',
+     '["(10:20:5)", "(10:20:5)"]\n["1-2", "3-4"]\n["aaa", "bbb", "ccc"]\n'),
 ]
+# every element of a list chain is called with the same arguments, whatever their number (1..8) and the chain context
+for _n in range(1, 9):
+    _ps = ", ".join("a%d" % i for i in range(1, _n + 1))
+    _as = ", ".join(str(10 * i) for i in range(1, _n + 1))
+    for _ch in ("@", "=@", "&@", "~@"):
+        EXPECT.append(("list_chain_args_%d%s" % (_n, _ch),
+                       "P := {f: {|self, %s| [self.n, %s]}}\n[P.bear({n: 1}), P.bear({n: 2}), P.bear({n: 3})]%sf(%s).p\n" % (_ps, _ps, _ch, _as),
+                       "[%s]\n" % ", ".join("[%d, %s]" % (k, _as) for k in (1, 2, 3))))
 
 
 # the same literal evaluated several times with different values of a free variable gives each time what the literal written
